@@ -199,6 +199,8 @@ def corrupt_object(fmt, obj, node_index, field, cls):
         tree.platforms.discard(tree.arch)
     elif cls == "foreign":
         node.arches = set(node.arches) | set(["s390x"])
+    elif cls == "foreign_substring":
+        node.arches = set([sorted(node.parent.arches)[0][:-2]])
     elif cls == "foreign_ancestor":
         extra = set(_top(node).arches) - set(node.parent.arches)
         if not extra:
@@ -217,6 +219,9 @@ def corrupt_object(fmt, obj, node_index, field, cls):
         node.images["bogusplat"] = {"kernel": "images/vmlinuz"}
     elif cls == "absolute" and field in ("mainimage", "instimage"):
         setattr(node, field, "/abs/install.img")
+    elif cls == "absolute_alone":
+        node.mainimage = None                   # valid by itself: the other image is the only one
+        node.instimage = "/abs/install.img"
     elif cls == "absolute" and field == "paths":
         node.checksums["/abs/file"] = ["sha256", "0" * 64]
     elif cls == "intkey" and field == "paths":
@@ -256,7 +261,7 @@ def corrupt_document(fmt, text, obj, case):
     if fmt == "discinfo":
         lines = text.split("\n")
         idx = {"timestamp": 0, "description": 1, "arch": 2, "disc_numbers": 3}[field]
-        val = {"zero": "0", "str": "abc", "empty": ""}.get(cls)
+        val = {"zero": "0", "str": "abc", "empty": "", "doc:trailingcomma": "1,2,", "doc:leadingcomma": ",1", "doc:doublecomma": "1,,2"}.get(cls)
         if field == "disc_numbers" and cls == "str":
             val = "a,b"
         if val is None:
@@ -348,6 +353,9 @@ def corrupt_document(fmt, text, obj, case):
             n["uid"] = n["uid"].replace("-", "--", 1)
         elif cls == "foreign":
             n["arches"] = sorted(set(n["arches"]) | set(["s390x"]))
+        elif cls == "foreign_substring":
+            par = [v for v in pay["variants"].values() if label == v["uid"] + "-" + n["id"]][0]
+            n["arches"] = [sorted(par["arches"])[0][:-2]]
         elif cls == "foreign_ancestor":
             top = pay["variants"][[u for u in pay["variants"] if label.startswith(u + "-") and "-" not in u][0]]
             par = pay["variants"][label.rsplit("-", 1)[0]]
@@ -391,11 +399,57 @@ def eval_write(case):
     return ["%s: dumps() returned %d characters of text for an object that breaks a documented constraint" % (what, len(text))]
 
 
+_HISTORY = [False]
+
+
+def _history():
+    """Once per process, before any valid object is built: OTHER objects of every class have their containers filled in place
+    (lists appended to, sets and tables added to).  Nothing of that may reach an object created afterwards."""
+    if _HISTORY[0]:
+        return
+    _HISTORY[0] = True
+    try:
+        from productmd.images import Image, Images
+        from productmd.treeinfo import TreeInfo
+        from productmd.treeinfo import Variant as TVariant
+        from productmd.composeinfo import ComposeInfo, Variant
+        from productmd.discinfo import DiscInfo
+        img = Image(Images())
+        img.unified = True
+        img.additional_variants.append("Client")
+        img.checksums["md5"] = "0" * 32
+        t = TreeInfo()
+        t.tree.platforms.add("zzplat")
+        t.images.images["zzplat"] = {"kernel": "/abs"}
+        t.checksums.checksums["/abs"] = ["md5", "x"]
+        tv = TVariant(t)
+        tv.variants["junk"] = None
+        ci = ComposeInfo()
+        v = Variant(ci)
+        v.arches.add("zzarch")
+        v.paths.os_tree["zzarch"] = "/abs"
+        v.variants["junk"] = None
+        ci.variants.variants["junk"] = None
+        d = DiscInfo()
+        if isinstance(d.disc_numbers, list):
+            d.disc_numbers.append("junk")
+    except Exception:
+        pass
+
+
 def eval_valid(case):
     """C06 converse: an object whose fields all satisfy their rules is written."""
     fmt, shape = case["sample"].rsplit("_", 1)
+    _history()
     try:
         obj = samples.build(fmt, int(shape)) if "variant" not in case else build_enum(case)
+        if fmt == "images":
+            # one more image described by its mandatory attributes only (everything optional left at its default)
+            from productmd.images import Image
+            img = Image(obj)
+            img.path, img.mtime, img.size, img.volume_id, img.type, img.format, img.arch = "Server/x86_64/iso/plain.iso", 1, 1, None, "dvd", "iso", "x86_64"
+            img.disc_number, img.disc_count, img.checksums, img.implant_md5, img.bootable, img.subvariant = 1, 1, {"md5": "1" * 32}, None, False, "Plain"
+            obj.add(sorted(obj.images)[0], "x86_64", img)
         text = obj.dumps()
         if not text.strip():
             return ["%s: valid object written as empty text" % (case,)]
@@ -612,8 +666,43 @@ def _reused(obj, good, bad, what):
     try:
         new.loads(bad)
     except Exception:
+        if type(obj).__name__ == "TreeInfo":
+            return _reused_tree(obj, good, bad, what)
         return []
     return ["%s: rejected by a fresh object but accepted by an object that had loaded a valid document before" % what]
+
+
+def _reused_tree(obj, good, bad, what):
+    """A TreeInfo refuses every second file that names a variant it already holds, whatever else is wrong with it: here the
+    object first reads a valid tree WITHOUT variants that lists every platform either document mentions."""
+    try:
+        ini = Ini(good)
+        for sec in list(ini.p.sections()):
+            if sec.startswith("variant-") or sec.startswith("addon-"):
+                ini.p.remove_section(sec)
+        ini.p.set("tree", "variants", "")
+        plats = set(p for p in ini.p.get("tree", "platforms").split(",") if p)
+        for text in (good, bad):
+            plats |= set(sec[7:] for sec in Ini(text).p.sections() if sec.startswith("images-"))
+        ini.p.set("tree", "platforms", ",".join(sorted(plats)))
+        if ini.p.has_section("general"):
+            ini.p.remove_option("general", "variant")
+            ini.p.set("general", "variants", "")
+            ini.p.set("general", "platforms", ",".join(sorted(plats)))
+        prelude = ini.text()
+    except Exception:
+        return []
+    new = type(obj)()
+    try:
+        new.loads(prelude)
+    except Exception:
+        return []
+    try:
+        new.loads(bad)
+    except Exception:
+        return []
+    return ["%s: rejected by a fresh object but accepted by an object that had read another valid tree (without variants, listing "
+            "more platforms) before" % what]
 
 
 # ----------------------------------------------------------------- C18: real invalid values through dump(path)
